@@ -89,20 +89,24 @@ def lay_out(a, layout):
     return a, a
 
 
-def mk_raster(rng, dtype, layout, backend, kind="elev", nan=True, rname=None):
+def mk_raster(rng, dtype, layout, backend, kind="elev", nan=True, rname=None, inf=False, tag="r", chunks=None):
     import xarray as xr
     vals = base_values(rng, kind).astype(dtype)
     if np.dtype(dtype).kind == "f" and nan and kind == "elev" and rng.random() < 0.5:
         vals[rng.randrange(H), rng.randrange(W)] = np.nan
+        if inf and rng.random() < 0.5:
+            vals[rng.randrange(H), rng.randrange(W)] = rng.choice([np.inf, -np.inf])
     arr, owner = lay_out(vals, layout)
     data = arr
     if backend == "dask":
         import dask.array as da
-        data = da.from_array(arr, chunks=(3, 4))
+        ch = rng.choice([(3, 4), (2, 3), (6, 7), (4, 2)])
+        data = da.from_array(arr, chunks=chunks or ch)
     r = xr.DataArray(data, dims=["y", "x"], name=rname,
                      coords={"y": np.linspace(5.0, 0.0, H), "x": np.linspace(0.0, 6.0, W),
-                             "band": 1, "spatial_ref": 0},
-                     attrs={"res": (1.0, 1.0), "crs": "EPSG:4326", "nodata": -9999, "history": ["made", "up"]})
+                             "band": sum(map(ord, tag)) % 97, "spatial_ref": 0},
+                     attrs={"res": (1.0, 1.0), "crs": "EPSG:4326", "nodata": -9999, "history": ["made", "up"],
+                            "layer": tag})
     return r, owner
 
 
@@ -114,7 +118,7 @@ class Inputs:
         self.owners = {}
 
     def raster(self, name, rng, case, **kw):
-        r, o = mk_raster(rng, case["dtype"], case["layout"], case["backend"], **kw)
+        r, o = mk_raster(rng, case["dtype"], case["layout"], case["backend"], tag=name, **kw)
         self.args[name] = r
         self.owners[name] = o
         return r
@@ -142,7 +146,7 @@ def build(case):
     key = case["func"]
     if key in ("slope.slope", "aspect.aspect", "curvature.curvature", "hillshade.hillshade", "perlin.perlin",
                "classify.quantile", "classify.natural_breaks", "classify.equal_interval", "focal.mean"):
-        I.raster("agg", rng, case)
+        I.raster("agg", rng, case, inf=key.startswith("classify."))
         if key == "focal.mean":
             I.plain("excludes", [np.nan, 3.0])
             kw["passes"] = rng.choice([0, 1, 2])
@@ -211,8 +215,9 @@ def build(case):
         I.plain("zones_ids", (1, 2))
     elif key in ("zonal.stats", "zonal.crosstab", "zonal.apply"):
         zc = dict(case, dtype="int32" if np.dtype(case["dtype"]).kind == "f" else case["dtype"])
-        I.raster("zones", rng, zc, kind="zones")
-        I.raster("values", rng, case, kind="layer" if key == "zonal.crosstab" else "elev")
+        same = dict(chunks=(3, 4)) if key == "zonal.crosstab" else {}    # crosstab requires aligned chunks
+        I.raster("zones", rng, zc, kind="zones", **same)
+        I.raster("values", rng, case, kind="layer" if key == "zonal.crosstab" else "elev", **same)
         if key == "zonal.stats":
             I.plain("zone_ids", [0, 1, 2])
             I.plain("stats_funcs", ["mean", "max", "count"])
@@ -220,7 +225,20 @@ def build(case):
                 else "pandas.DataFrame"
         elif key == "zonal.crosstab":
             I.plain("zone_ids", [0, 1])
-            I.plain("cat_ids", [1, 2, 3])
+            if case["backend"] == "numpy" and rng.random() < 0.5:
+                # 3-D values: one layer per category
+                import xarray as xr
+                v2 = I.args["values"]
+                stack, owner = lay_out(np.stack([np.asarray(v2.data) + i for i in range(3)]), case["layout"]
+                                       if case["layout"] != "strided" else "C")
+                I.args["values"] = xr.DataArray(stack, dims=["cat", "y", "x"],
+                                                coords={"cat": [1, 2, 3], "y": v2.y.values, "x": v2.x.values},
+                                                attrs=dict(v2.attrs))
+                I.owners["values"] = owner
+                I.plain("cat_ids", [1, 3])
+                kw.update(layer=0, agg=rng.choice(["mean", "count", "max"]))
+            else:
+                I.plain("cat_ids", [1, 2, 3])
         else:
             I.plain("func", lambda v: v * 2)
     elif key.startswith("local."):
@@ -767,7 +785,8 @@ def run(r, full=False):
     cases = corpus + make_cases(r.rng, funcs, r.tier, full=full)
     if bad and not full:
         # functions whose program is rejected get the whole matrix right away
-        cases += make_cases(r.rng, bad, r.tier, full=True, only_backend="numpy")
+        for _ in range(3):
+            cases += make_cases(r.rng, bad, r.tier, full=True, only_backend="numpy")
     t_obs = time.time()
     results = run_parallel(cases)
     for res in results:
